@@ -29,6 +29,10 @@ pub enum Op {
 pub struct Case {
     pub k: u8,
     pub ops: Vec<Op>,
+    /// rare "large arena" cases: this many nodes are added at pseudo-random free slots before the history runs
+    /// (and a quarter as many again after its first half, so that freed indices are re-used deep in the tree)
+    #[serde(default)]
+    pub bulk: u16,
 }
 
 pub fn sel_strategy() -> impl Strategy<Value = Sel> {
@@ -312,7 +316,17 @@ fn run_k<const K: usize>(case: &Case, ctx: &mut Ctx) -> CaseResult {
     let mut t = Tree::<i64, K>::new();
     let root = t.add_root(100);
     let mut m = Model::new(K, root, 100);
+    if case.bulk > 0 {
+        ctx.class("large_arena");
+        crate::treemodel::bulk_grow(&mut t, &mut m, case.bulk as usize, case.bulk as u64, &|v| v);
+        compare(&t, &m).map_err(|s| Failure::new(format!("K={K} after adding {} nodes: {s}", case.bulk)))?;
+    }
+    let half = case.ops.len() / 2;
     for (step, op) in case.ops.iter().enumerate() {
+        if case.bulk > 0 && step == half {
+            crate::treemodel::bulk_grow(&mut t, &mut m, case.bulk as usize / 4, case.bulk as u64 + 1, &|v| v);
+            compare(&t, &m).map_err(|s| Failure::new(format!("K={K} after the second bulk insertion: {s}")))?;
+        }
         apply_op(&mut t, &mut m, op, ctx).map_err(|s| Failure::new(format!("K={K} step {step}: {s}")))?;
     }
     ctx.count("ops", case.ops.len() as u64);
@@ -330,7 +344,7 @@ impl Property for C12 {
         "C12"
     }
     fn rule(&self) -> String {
-        "histories of add_child_node/try_remove_child/remove_child/remove_all_descendants/merge_child_with_parent/update_node over K in {2,3} with live, removed (possibly reused), out-of-range and root selectors, interpreted against a reference model; after every op the raw arena, len(), reachability, leaf flags, return values and parent()/child()/path_to_node() must equal the model, and Err/documented panic must leave the arena unchanged. Non-trivial = at least one insertion reused a freed index AND at least one call returned Err; distinct = distinct serialised histories".into()
+        "histories of add_child_node/try_remove_child/remove_child/remove_all_descendants/merge_child_with_parent/update_node over K in {2,3} with live, removed (possibly reused), out-of-range and root selectors, interpreted against a reference model; after every op the raw arena, len(), reachability, leaf flags, return values and parent()/child()/path_to_node() must equal the model, and Err/documented panic must leave the arena unchanged; 1 case in 200 runs on a large arena (1100-2600 nodes grown before and in the middle of the history). Non-trivial = at least one insertion reused a freed index AND at least one call returned Err; distinct = distinct serialised histories".into()
     }
     fn assumptions(&self) -> Vec<String> {
         vec![
@@ -345,7 +359,8 @@ impl Property for C12 {
     fn strategy(&self, tier: Tier) -> BoxedStrategy<Case> {
         let max = tier.pick(40, 200);
         (prop_oneof![Just(2u8), Just(3u8)], prop_oneof![19 => proptest::collection::vec(op_strategy(), 0..max), 1 => proptest::collection::vec(op_strategy(), max..(4 * max))])
-            .prop_map(|(k, ops)| Case { k, ops })
+            .prop_flat_map(|(k, ops)| (Just(k), Just(ops), prop_oneof![199 => Just(0u16), 1 => 1100u16..2600]))
+            .prop_map(|(k, ops, bulk)| Case { k, ops, bulk })
             .boxed()
     }
     fn run(&self, case: &Case, ctx: &mut Ctx) -> CaseResult {
